@@ -515,7 +515,8 @@ impl OpsWorld {
                     // A read into a pool buffer that already holds data may only target the spare part of that buffer.
                     if let Some(s) = self.slots.iter().find(|s| s.ud == Some(ud) && s.kind == Kind::RereadHeld) {
                         let targets: Vec<(usize, usize)> = simk::with(|k| k.req(serial).foot.iter().filter(|f| f.write && matches!(f.what, "buffer" | "iovec-target") && f.len > 0).map(|f| (f.addr, f.len)).collect());
-                        let own = targets.first().and_then(|(a, _)| self.pool_bufs.iter().find(|(base, len)| *a >= *base && *a <= *base + *len as usize)).copied();
+                        // (The buffer the target lies in; a target at the very end of a buffer -- nothing spare -- belongs to that buffer, not to the next one, but such targets have length 0 and are filtered out above.)
+                        let own = targets.first().and_then(|(a, _)| self.pool_bufs.iter().find(|(base, len)| *a >= *base && *a < *base + *len as usize)).copied();
                         let ok = match own {
                             Some((base, len)) => targets.len() == 1 && targets[0].0 == base + s.prefix.len() && targets[0].0 + targets[0].1 <= base + len as usize,
                             None => targets.is_empty(),
